@@ -418,10 +418,24 @@ func spellingRule(p *core.Program, r *core.Report, rule string, g *eng.Grammar) 
 		if pf == nil {
 			bad = "no strconv.ParseFloat call"
 		} else {
+			loops := eng.Loops(fn)
+			isLoopExit := func(b *ssa.BasicBlock) bool {
+				for _, l := range loops {
+					if !l.Body[b] {
+						continue
+					}
+					for _, sc := range b.Succs {
+						if !l.Body[sc] {
+							return true
+						}
+					}
+				}
+				return false
+			}
 			for _, b := range fn.Blocks {
 				ifi := eng.BlockIf(b)
-				if ifi == nil || !(b == pf.Block() || eng.Reachable(b, nil)[pf.Block()]) || b == pf.Block() {
-					continue
+				if ifi == nil || !(b == pf.Block() || eng.Reachable(b, nil)[pf.Block()]) || b == pf.Block() || !isLoopExit(b) {
+					continue // only the exits of the scanning loop decide where the token ends
 				}
 				cond := ifi.Cond
 				if u, ok := cond.(*ssa.UnOp); ok && u.Op == token.NOT {
@@ -1204,9 +1218,16 @@ func validatorThresholdRule(p *core.Program, r *core.Report, rule string) {
 		if fn == nil {
 			continue
 		}
+		caches := strideCacheFields(pkgFuncs(p, wktRel))
 		eval := func(stride, n int64) eng.CVal {
 			ev := &eng.ConstEval{MaxDepth: 4}
 			ev.Override = func(f *ssa.Function, x ssa.Value, args []eng.CVal) (eng.CVal, bool) {
+				// a cached stride (kept coupled to the layout: stride-cache-coupled) reads as the stride
+				if ld, isLd := x.(*ssa.UnOp); isLd && ld.Op == token.MUL {
+					if fa, isFA := ld.X.(*ssa.FieldAddr); isFA && caches[fieldVarOf(fa)] != nil {
+						return eng.IntV(stride), true
+					}
+				}
 				c, ok := x.(*ssa.Call)
 				if !ok {
 					return eng.CVal{}, false
@@ -2037,7 +2058,26 @@ func parsedNumberRule(p *core.Program, r *core.Report, rule string) {
 				if _, isDbg := rf.(*ssa.DebugRef); isDbg {
 					continue
 				}
-				if len(edges) == 0 || eng.Reachable(fn.Blocks[0], edges)[rf.Block()] {
+				reach := eng.Reachable(fn.Blocks[0], edges)
+				if phi, isPhi := rf.(*ssa.Phi); isPhi && len(edges) > 0 {
+					// a phi uses the value on the edges that carry it
+					used := false
+					for k, e := range phi.Edges {
+						if e != val {
+							continue
+						}
+						pred := phi.Block().Preds[k]
+						for si, sc := range pred.Succs {
+							if sc == phi.Block() && reach[pred] && !edges[[2]int{pred.Index, si}] {
+								used = true
+							}
+						}
+					}
+					if !used {
+						continue
+					}
+				}
+				if len(edges) == 0 || reach[rf.Block()] {
 					bad = "the parsed value is used at " + p.Pos(rf.Pos()) + " on a path where ParseFloat's error is not nil (a range error yields +-Inf, a syntax error 0)"
 				}
 			}
@@ -2476,4 +2516,328 @@ func foldWholeGeometryRule(p *core.Program, r *core.Report, rule string) {
 			r.Check(bad == "", rule, key, p.Pos(c.Pos()), true, "whole array, 0 .. len", bad)
 		}
 	}
+}
+
+// ordinateFromStrconvRule (C05/C06): the decimal-to-binary conversion of a number token is the standard library's.
+// Every float64 stored into the float field of the parser's token value in package wkt is traced back through
+// phis, tuple extracts and the results of module functions: its leaves are results of functions outside the module
+// (strconv.ParseFloat) or constants; a leaf produced by floating-point arithmetic or by an integer-to-float
+// conversion is a hand-written conversion, which is not correctly rounded for every decimal (a single division by
+// a power of ten is exact only while that power is representable).
+func ordinateFromStrconvRule(p *core.Program, r *core.Report, rule string) {
+	r.Rule(rule, "in package wkt every float64 stored into the float64 field of the grammar's token value (yylval) is, through phis, extracts and the returns of module functions, a result of a function outside the module (strconv.ParseFloat) or a constant - never the result of floating-point arithmetic, except a converted integer, alone or scaled by a single math.Pow10(k) with k <= 22 established on every path to it (the exact fast path; that the integer stays below 2^53 is not decided): a hand-written decimal conversion (digits as an integer divided by a power of ten) is off by one unit in the last place whenever the power of ten is not exactly representable (1e-23), and loses subnormals", 1)
+	n := 0
+	for _, fn := range pkgFuncs(p, wktRel) {
+		for _, b := range fn.Blocks {
+			for _, in := range b.Instrs {
+				st, ok := in.(*ssa.Store)
+				if !ok {
+					continue
+				}
+				fa, ok := st.Addr.(*ssa.FieldAddr)
+				if !ok {
+					continue
+				}
+				if tb, isB := st.Val.Type().Underlying().(*types.Basic); !isB || tb.Kind() != types.Float64 {
+					continue
+				}
+				pt, _ := fa.X.Type().Underlying().(*types.Pointer)
+				if pt == nil || !strings.HasSuffix(namedTypeName(pt.Elem()), "SymType") {
+					continue
+				}
+				n++
+				key := fmt.Sprintf("%s/token-value#%d", short(fn), n)
+				bad := ""
+				seen := map[ssa.Value]bool{}
+				var walk func(v ssa.Value, d int)
+				walk = func(v ssa.Value, d int) {
+					if v == nil || seen[v] || d > 12 || bad != "" {
+						return
+					}
+					seen[v] = true
+					switch x := v.(type) {
+					case *ssa.Const:
+					case *ssa.Phi:
+						for _, e := range x.Edges {
+							walk(e, d+1)
+						}
+					case *ssa.Extract:
+						if c, ok := x.Tuple.(*ssa.Call); ok {
+							g := c.Call.StaticCallee()
+							if g == nil || !core.InModule(g) || len(g.Blocks) == 0 {
+								return // a result of a function outside the module
+							}
+							for _, gb := range g.Blocks {
+								if ret, ok := gb.Instrs[len(gb.Instrs)-1].(*ssa.Return); ok && x.Index < len(ret.Results) {
+									walk(ret.Results[x.Index], d+1)
+								}
+							}
+						}
+					case *ssa.Call:
+						g := x.Call.StaticCallee()
+						if g == nil || !core.InModule(g) || len(g.Blocks) == 0 {
+							return
+						}
+						for _, gb := range g.Blocks {
+							if ret, ok := gb.Instrs[len(gb.Instrs)-1].(*ssa.Return); ok && len(ret.Results) == 1 {
+								walk(ret.Results[0], d+1)
+							}
+						}
+					case *ssa.BinOp:
+						// the exact fast path (Clinger): an integer mantissa scaled by ONE power of ten that is itself
+						// exactly representable, i.e. math.Pow10(k) with k <= 22 established on every path
+						if x.Op == token.QUO || x.Op == token.MUL {
+							for _, opd := range []ssa.Value{x.Y, x.X} {
+								c, ok := eng.StripConv(opd).(*ssa.Call)
+								if !ok || !eng.IsCallTo(c, "math", "Pow10") || len(c.Call.Args) != 1 {
+									continue
+								}
+								k := eng.StripConv(c.Call.Args[0])
+								bounded := false
+								for _, e := range mustEdgesTo(x.Parent(), x.Block()) {
+									cc, ok := eng.EdgeCmp(x.Parent().Blocks[e[0]], e[1])
+									if !ok {
+										continue
+									}
+									if lim, isC := eng.ConstInt(cc.Y); isC && eng.StripConv(cc.X) == k && ((cc.Op == token.LEQ && lim <= 22) || (cc.Op == token.LSS && lim <= 23)) {
+										bounded = true
+									}
+									if lim, isC := eng.ConstInt(cc.X); isC && eng.StripConv(cc.Y) == k && ((cc.Op == token.GEQ && lim <= 22) || (cc.Op == token.GTR && lim <= 23)) {
+										bounded = true
+									}
+								}
+								if bounded {
+									return
+								}
+								bad = "a scaling by math.Pow10(k) at " + p.Pos(x.Pos()) + " with k not bounded by 22 on every path (larger powers of ten are not exactly representable)"
+								return
+							}
+						}
+						bad = "floating-point arithmetic (" + x.Op.String() + ") at " + p.Pos(x.Pos())
+					case *ssa.UnOp:
+						if x.Op == token.SUB {
+							walk(x.X, d+1) // negation is exact
+						} else if x.Op == token.MUL {
+							// a load: a local variable's cell - follow its stores
+							if al, ok := x.X.(*ssa.Alloc); ok {
+								for _, rf := range eng.Referrers(al) {
+									if s2, ok := rf.(*ssa.Store); ok && s2.Addr == ssa.Value(al) {
+										walk(s2.Val, d+1)
+									}
+								}
+							}
+						}
+					case *ssa.Convert:
+						if sb, ok := x.X.Type().Underlying().(*types.Basic); ok && sb.Info()&types.IsInteger != 0 {
+							return // exact below 2^53; that bound on the digit count is not decided
+						}
+						walk(x.X, d+1)
+					case *ssa.ChangeType:
+						walk(x.X, d+1)
+					}
+				}
+				walk(st.Val, 0)
+				r.Check(bad == "", rule, key, p.Pos(st.Pos()), true, "the token value is a standard-library conversion result", "the number stored as the token value at "+p.Pos(st.Pos())+" can be the result of "+bad+": a hand-written decimal conversion is not correctly rounded for every token (1e-23 comes back one unit in the last place off; 5e-324 as 0)")
+			}
+		}
+	}
+}
+
+// ---- cached strides (C06)
+
+// isStrideCall: v is L.Stride() for a Layout value L; returns L.
+func isStrideCall(v ssa.Value) (ssa.Value, bool) {
+	c, ok := eng.StripConv(v).(*ssa.Call)
+	if !ok {
+		return nil, false
+	}
+	o := eng.CalleeObj(c)
+	if o == nil || o.Name() != "Stride" || len(c.Call.Args) != 1 || namedTypeName(c.Call.Args[0].Type()) != "Layout" {
+		return nil, false
+	}
+	return c.Call.Args[0], true
+}
+
+// strideCacheFields finds the struct fields that cache a stride: int fields of a struct that also has a
+// Layout-typed field, to which some function stores the result of a Layout.Stride() call.
+func strideCacheFields(fns []*ssa.Function) map[*types.Var]*types.Var {
+	out := map[*types.Var]*types.Var{} // stride field -> layout field of the same struct
+	for _, fn := range fns {
+		for _, b := range fn.Blocks {
+			for _, in := range b.Instrs {
+				st, ok := in.(*ssa.Store)
+				if !ok {
+					continue
+				}
+				fa, ok := st.Addr.(*ssa.FieldAddr)
+				if !ok {
+					continue
+				}
+				if _, isStride := isStrideCall(st.Val); !isStride {
+					continue
+				}
+				stt, ok := fa.X.Type().Underlying().(*types.Pointer).Elem().Underlying().(*types.Struct)
+				if !ok {
+					continue
+				}
+				for i := 0; i < stt.NumFields(); i++ {
+					if namedTypeName(stt.Field(i).Type()) == "Layout" {
+						out[stt.Field(fa.Field)] = stt.Field(i)
+					}
+				}
+			}
+		}
+	}
+	return out
+}
+
+func fieldVarOf(fa *ssa.FieldAddr) *types.Var {
+	stt, ok := fa.X.Type().Underlying().(*types.Pointer).Elem().Underlying().(*types.Struct)
+	if !ok {
+		return nil
+	}
+	return stt.Field(fa.Field)
+}
+
+// strideCacheFindings: every store to the layout field of an object that caches its stride is accompanied by a
+// store of that layout's Stride() to the cache of the same object (in the same block, or - computed from the
+// stored field itself - at a point every path to the function's exits passes).
+func strideCacheFindings(fns []*ssa.Function, skipStruct string, pos func(token.Pos) string) (n int, bad []string) {
+	cache := strideCacheFields(fns)
+	layoutOf := map[*types.Var]*types.Var{}
+	for s, l := range cache {
+		layoutOf[l] = s
+	}
+	for _, fn := range fns {
+		for _, b := range fn.Blocks {
+			for _, in := range b.Instrs {
+				st, ok := in.(*ssa.Store)
+				if !ok {
+					continue
+				}
+				fa, ok := st.Addr.(*ssa.FieldAddr)
+				if !ok {
+					continue
+				}
+				sf := layoutOf[fieldVarOf(fa)]
+				if sf == nil || namedTypeName(fa.X.Type().Underlying().(*types.Pointer).Elem()) == skipStruct {
+					continue
+				}
+				n++
+				covered := false
+				for _, b2 := range fn.Blocks {
+					for _, in2 := range b2.Instrs {
+						st2, ok := in2.(*ssa.Store)
+						if !ok {
+							continue
+						}
+						fa2, ok := st2.Addr.(*ssa.FieldAddr)
+						if !ok || fieldVarOf(fa2) != sf || fa2.X != fa.X {
+							continue
+						}
+						if l, isS := isStrideCall(st2.Val); isS {
+							if l == st.Val && b2 == b {
+								covered = true
+							}
+							// recomputed from the stored field on every way out
+							if ld, isLd := l.(*ssa.UnOp); isLd && ld.Op == token.MUL {
+								if fa3, ok := ld.X.(*ssa.FieldAddr); ok && fa3.X == fa.X && fieldVarOf(fa3) == fieldVarOf(fa) && mustPassBlock(fn, b, b2) {
+									covered = true
+								}
+							}
+						}
+						// both copied from one source object
+						if ld, isLd := st2.Val.(*ssa.UnOp); isLd && ld.Op == token.MUL && b2 == b {
+							if fs, ok := ld.X.(*ssa.FieldAddr); ok && fieldVarOf(fs) == sf {
+								if ll, ok := st.Val.(*ssa.UnOp); ok && ll.Op == token.MUL {
+									if fl, ok := ll.X.(*ssa.FieldAddr); ok && fl.X == fs.X && fieldVarOf(fl) == fieldVarOf(fa) {
+										covered = true
+									}
+								}
+							}
+						}
+					}
+				}
+				// a freshly allocated object given a constant layout whose stride is 0 (NoLayout): the zero value of
+				// the cache is that stride
+				if k, isC := eng.ConstInt(st.Val); isC && !covered {
+					root := fa.X
+					for {
+						if ia, ok := root.(*ssa.IndexAddr); ok {
+							root = ia.X
+							continue
+						}
+						if f2, ok := root.(*ssa.FieldAddr); ok {
+							root = f2.X
+							continue
+						}
+						break
+					}
+					if _, fresh := root.(*ssa.Alloc); fresh {
+						if sfn := strideMethod(fns); sfn != nil {
+							ev := &eng.ConstEval{}
+							if v, ok := ev.Run(sfn, []eng.CVal{eng.IntV(k)}).Ret.Int(); ok && v == 0 {
+								covered = true
+							}
+						}
+					}
+				}
+				if !covered {
+					bad = append(bad, fmt.Sprintf("%s: the layout of an object that caches its stride (field %s) is replaced at %s without storing that layout's Stride() to the cache: readers of the cached stride see the stride of the previous layout", short(fn), sf.Name(), pos(st.Pos())))
+				}
+			}
+		}
+	}
+	return n, bad
+}
+
+// mustPassBlock: every path from block `from` to an exit of fn passes block `via`.
+func mustPassBlock(fn *ssa.Function, from, via *ssa.BasicBlock) bool {
+	if from == via {
+		return true
+	}
+	seen := map[*ssa.BasicBlock]bool{from: true}
+	work := []*ssa.BasicBlock{from}
+	for len(work) > 0 {
+		b := work[len(work)-1]
+		work = work[:len(work)-1]
+		if len(b.Succs) == 0 {
+			if _, isRet := b.Instrs[len(b.Instrs)-1].(*ssa.Return); isRet {
+				return false
+			}
+		}
+		for _, s := range b.Succs {
+			if s != via && !seen[s] {
+				seen[s] = true
+				work = append(work, s)
+			}
+		}
+	}
+	return true
+}
+
+// strideCacheRule (C06): the validators compare lengths with multiples of the stride of the layout being parsed.
+func strideCacheRule(p *core.Program, r *core.Report, rule string) {
+	r.Rule(rule, "in package wkt a struct that keeps a stride next to a Layout field (an int field that receives a Layout.Stride() result) keeps the two coupled: every store to the layout field is accompanied, in the same block, by a store of that very layout's Stride() to the stride field of the same object (or the stride is recomputed from the stored field on every way out of the function): the linestring and ring validators measure `fewer than k points` in units of the stride, and a stale stride (0 for a frame created before its layout was known) makes them vacuous and the closing-point test index out of range", 0)
+	n, bad := strideCacheFindings(pkgFuncs(p, wktRel), "", p.Pos)
+	for i, b := range bad {
+		r.Bad(rule, fmt.Sprintf("%s/layout-store#%d", wktRel, i+1), "", b)
+	}
+	if len(bad) == 0 {
+		r.OK(rule, wktRel+"/stride-caches", "", true, fmt.Sprintf("%d layout stores next to a cached stride, all coupled (0: the validators derive the stride from the layout each time)", n))
+	}
+}
+
+// strideMethod: the Layout.Stride method called by the given functions.
+func strideMethod(fns []*ssa.Function) *ssa.Function {
+	for _, fn := range fns {
+		for _, c := range eng.Calls(fn) {
+			if cc, ok := c.(*ssa.Call); ok {
+				if _, isS := isStrideCall(cc); isS && cc.Call.StaticCallee() != nil && len(cc.Call.StaticCallee().Blocks) > 0 {
+					return cc.Call.StaticCallee()
+				}
+			}
+		}
+	}
+	return nil
 }
